@@ -215,6 +215,27 @@ def json_representable(p, top=True):
     return False
 
 
+def json_setitems_form(p):
+    """The delta is JSON-representable except that it has set_item_added / set_item_removed categories whose
+    values are sets of JSON scalars: deepdiff writes those as arrays on purpose (JSON_CONVERTOR[set] = list) and
+    Delta applies them with set.union / set.difference, which take any iterable - so the reloaded delta must
+    BEHAVE the same although its payload holds lists."""
+    if type(p) is not dict:
+        return False
+    cats = [c for c in ("set_item_added", "set_item_removed") if c in p]
+    if not cats:
+        return False
+    for c in cats:
+        if type(p[c]) is not dict:
+            return False
+        for k, v in p[c].items():
+            if type(k) is not str or type(v) is not set:
+                return False
+            if not all(x is None or type(x) in (bool, int, str) or (type(x) is float and _is_half(x)) for x in v):
+                return False
+    return json_representable({k: v for k, v in p.items() if k not in cats})
+
+
 # ---------------------------------------------------------------------------
 # generators
 # ---------------------------------------------------------------------------
@@ -276,7 +297,25 @@ def gen_pair(rng):
         if rng.random() < 0.4:
             t2[rng.choice(["new", 9, "n2"])] = small()
         kind = "typed"
-    elif k < 0.95:
+    elif k < 0.92:
+        # sets / frozensets of JSON scalars whose members come and go: set_item_added / set_item_removed only
+        pool = [1, 2, 3, 7, "a", "b", "k", 2.5, None, True]
+
+        def rs():
+            return set(rng.sample(pool[:8], rng.randint(0, 4)))
+        t1 = {"s": rs(), "f": frozenset(rs()), "l": [rs(), 1], "n": {"q": rs()}}
+        t2 = {"s": set(t1["s"]), "f": frozenset(t1["f"]), "l": [set(t1["l"][0]), 1], "n": {"q": set(t1["n"]["q"])}}
+        for _ in range(rng.randint(1, 4)):
+            tgt = rng.choice(["s", "f", "l", "q"])
+            cur = {"s": t2["s"], "f": set(t2["f"]), "l": t2["l"][0], "q": t2["n"]["q"]}[tgt]
+            if cur and rng.random() < 0.5:
+                cur.discard(rng.choice(sorted(cur, key=repr)))
+            else:
+                cur.add(rng.choice(pool[:8]))
+            if tgt == "f":
+                t2["f"] = frozenset(cur)
+        kind = "json-sets"
+    elif k < 0.96:
         # records matched by an id through iterable_compare_func -> iterable_item_moved,
         # _iterable_compare_func_was_used travels in the payload
         ids = rng.sample(range(1, 8), rng.randint(2, 5))
@@ -506,6 +545,27 @@ def one_case(ctx, rng, idx, out):
             dj2 = Delta(text, deserializer=json_loads, serializer=json_dumps, bidirectional=bid, always_include_values=aiv)
         except Exception as e:  # noqa
             reload_err = type(e).__name__
+    if not jrep and json_setitems_form(payload):
+        ctx.count("json:set-items(behaviour only)")
+        jcase = dict(case, path="json", set_items=True, payload=repr(payload))
+        if jerr:
+            ctx.fail(dict(jcase, stage="dumps", error=jerr), "json_dumps raised %s on a delta with set items" % jerr)
+        elif reload_err:
+            ctx.fail(dict(jcase, stage="load", error=reload_err), "a JSON-serialised delta with set items does not load again: %s" % reload_err)
+        else:
+            def mkj():
+                return Delta(text, deserializer=json_loads, serializer=json_dumps, bidirectional=bid, always_include_values=aiv)
+            for bi, base in enumerate(bases):
+                got = apply_delta(base, mkj())
+                if got != wants[bi]:
+                    ctx.fail(dict(jcase, stage="behaviour", base=repr(base), original=wants[bi], reloaded=got),
+                             "the delta with set items reloaded from JSON behaves differently on base #%d" % bi)
+            if bid:
+                want = apply_delta(t2, mk["orig"](), sub=True)
+                got = apply_delta(t2, mkj(), sub=True)
+                if got != want:
+                    ctx.fail(dict(jcase, stage="behaviour-sub", base=repr(t2), original=want, reloaded=got),
+                             "t2 - (delta with set items reloaded from JSON) differs from t2 - original delta")
     if jrep:
         jcase = dict(case, path="json", has_opcodes="_iterable_opcodes" in payload, payload=repr(payload))
         if jerr:
@@ -523,6 +583,12 @@ def one_case(ctx, rng, idx, out):
                 if got != want:
                     ctx.fail(dict(jcase, stage="behaviour", base=repr(base), original=want, reloaded=got),
                              "the delta reloaded from JSON behaves differently on base #%d" % bi)
+            if bid:
+                want = apply_delta(t2, mk["orig"](), sub=True)
+                got = apply_delta(t2, Delta(text, deserializer=json_loads, serializer=json_dumps, bidirectional=bid, always_include_values=aiv), sub=True)
+                if got != want:
+                    ctx.fail(dict(jcase, stage="behaviour-sub", base=repr(t2), original=want, reloaded=got),
+                             "t2 - (delta reloaded from JSON) differs from t2 - original delta")
             try:
                 t3 = dj2.dumps()
                 if json.loads(t3) != json.loads(text):
